@@ -556,6 +556,9 @@ fn run_txn<'a>(ob: &mut ObservableVector<u32>, w: &mut World, ops: &mut std::sli
                     for s in w.subs.iter_mut() {
                         if s.live {
                             s.got_reset = true;
+                            // it may have been sent: count it for the lag bound (a Reset needs more
+                            // than `capacity` *actual* sends, so an upper bound keeps the check sound)
+                            s.sent_since_pending += 1;
                         }
                     }
                 } else {
